@@ -30,7 +30,7 @@ theorem intersectAabb_eq_trace (q : Q K) (b : Aabb3 K) (hpos : 0 < q.nodes.size)
   simp
 
 /-- a leaf reported at a live leaf node: it is the proxy attached to that lane -/
-theorem nodeReports_spec {q : Q K} (hinv : Inv q) (b : Aabb3 K) (n : Nat) (hlive : Live q n) (x : Nat)
+private theorem nodeReports_spec {q : Q K} (hinv : Inv q) (b : Aabb3 K) (n : Nat) (hlive : Live q n) (x : Nat)
     (hx : x ∈ nodeReports q b n) :
     ∃ (nd : Node K) (l p : Nat) (pr : Proxy) (bx : Aabb3 K), q.nodes[n]? = some nd ∧ nd.leaf = true ∧ l ∈ lanes4 ∧
       nd.children[l]? = some p ∧ q.proxies[p]? = some pr ∧ pr.data = x ∧ pr.node = n ∧ pr.lane = l ∧ pr.node ≠ MAXN ∧
@@ -168,13 +168,12 @@ theorem intersectAabb_nodup (q : Q K) (b : Aabb3 K) (hinv : Inv q) (hdata : Data
     rw [if_pos (by omega)] at h
     cases h; exact List.nodup_nil
 
-/-- **`intersect_aabb` is complete**, abstract form: on a tree satisfying `Inv` and `BoxInv`, every attached leaf whose
-current box `t` is such that every box containing `t` intersects the query is reported -/
-theorem intersectAabb_complete_abs (laws : BoxLaws K) (q : Q K) (cur : Nat → Aabb3 K) (b : Aabb3 K) (hinv : Inv q)
-    (hbox : BoxInv q cur) (hsz : q.nodes.size < MAXN) (ids : List Nat) (h : intersectAabb q b = some ids)
-    (p : Nat) (pr : Proxy) (hp : q.proxies[p]? = some pr) (hne : pr.node ≠ MAXN)
-    (hmono : ∀ bx : Aabb3 K, boxContains bx (cur pr.data) = true → boxIntersects bx b = true) : pr.data ∈ ids := by
-  have hpath := pathTo_root laws hinv cur hbox p pr hp hne
+/-- **`intersect_aabb` is complete along a path**: if from the root a path of lane boxes containing `t` leads to the lane of
+proxy `p`, and every box containing `t` intersects the query, then `p`'s data is reported -/
+theorem intersectAabb_complete_path (q : Q K) (b : Aabb3 K) (hinv : Inv q) (hsz : q.nodes.size < MAXN) (ids : List Nat)
+    (h : intersectAabb q b = some ids) (p : Nat) (pr : Proxy) (hp : q.proxies[p]? = some pr) (t : Aabb3 K)
+    (hpath : PathTo q p t 0) (hmono : ∀ bx : Aabb3 K, boxContains bx t = true → boxIntersects bx b = true) :
+    pr.data ∈ ids := by
   have hpos : 0 < q.nodes.size := by
     obtain ⟨nd, _, _, hn, _⟩ := hpath.top
     exact Nat.lt_of_le_of_lt (Nat.zero_le _) (Array.getElem?_eq_some_iff.mp hn).1
@@ -182,16 +181,24 @@ theorem intersectAabb_complete_abs (laws : BoxLaws K) (q : Q K) (cur : Nat → A
   rw [intersectAabb_eq_trace q b hpos, hT] at h
   simp only [Option.map_some, Option.some.injEq] at h
   subst h
-  have hm : MaskAccepts (bvMask b) (cur pr.data) := by
+  have hm : MaskAccepts (bvMask b) t := by
     intro nd l bx hb hc
     rw [bvMask_get, hb]; simp [hmono bx hc]
-  obtain ⟨n, nd, l, bx, hr, hn, hleaf, hc, hb, hcont⟩ := mreach_of_path (bvMask b) p (cur pr.data) hm 0 hpath
+  obtain ⟨n, nd, l, bx, hr, hn, hleaf, hc, hb, hcont⟩ := mreach_of_path (bvMask b) p t hm 0 hpath
   refine List.mem_flatMap.2 ⟨n, (hreach n).2 hr, ?_⟩
   unfold nodeReports
   rw [hn]
   refine List.mem_filterMap.2 ⟨l, lane_mem4 _ _ _ hb, ?_⟩
   unfold reportLane
   simp [hb, hc, hmono bx hcont, hleaf, hp]
+
+/-- **`intersect_aabb` is complete**, abstract form: on a tree satisfying `Inv` and `BoxInv`, every attached leaf whose
+current box `t` is such that every box containing `t` intersects the query is reported -/
+theorem intersectAabb_complete_abs (laws : BoxLaws K) (q : Q K) (cur : Nat → Aabb3 K) (b : Aabb3 K) (hinv : Inv q)
+    (hbox : BoxInv q cur) (hsz : q.nodes.size < MAXN) (ids : List Nat) (h : intersectAabb q b = some ids)
+    (p : Nat) (pr : Proxy) (hp : q.proxies[p]? = some pr) (hne : pr.node ≠ MAXN)
+    (hmono : ∀ bx : Aabb3 K, boxContains bx (cur pr.data) = true → boxIntersects bx b = true) : pr.data ∈ ids :=
+  intersectAabb_complete_path q b hinv hsz ids h p pr hp (cur pr.data) (pathTo_root laws hinv cur hbox p pr hp hne) hmono
 
 /-! ### `traverse_depth_first_node_with_stack`: early exit -/
 
